@@ -22,22 +22,22 @@ theorem mem_takeWhile {α : Type} {p : α → Bool} {a : α} : ∀ {l : List α}
       rcases h with rfl | h
       · exact ⟨hx, List.mem_cons_self ..⟩
       · exact ⟨(mem_takeWhile h).1, List.mem_cons_of_mem _ (mem_takeWhile h).2⟩
-    · simp [List.takeWhile_cons, hx] at h
+    · simp [hx] at h
 
 theorem takeWhile_stop {α : Type} {p : α → Bool} {l r : List α} {c : α}
     (h : ∀ a ∈ l, p a = true) (hc : p c = false) : (l ++ c :: r).takeWhile p = l := by
   rw [List.takeWhile_append_of_pos h]
-  simp [List.takeWhile_cons, hc]
+  simp [hc]
 
 /-- a scan that is stopped by `c` does not look beyond `c` -/
 theorem takeWhile_append_stop {α : Type} {p : α → Bool} {r : List α} {c : α} (hc : p c = false) :
     ∀ (h : List α), (h ++ c :: r).takeWhile p = h.takeWhile p
-  | [] => by simp [List.takeWhile_cons, hc]
+  | [] => by simp [hc]
   | x :: xs => by
     by_cases hx : p x = true
     · simp only [List.cons_append, List.takeWhile_cons, hx, if_true]
       rw [takeWhile_append_stop hc xs]
-    · simp [List.takeWhile_cons, hx]
+    · simp [hx]
 
 theorem dropWhile_head_false {α : Type} {p : α → Bool} {x : α} {rest : List α} :
     ∀ {l : List α}, l.dropWhile p = x :: rest → p x = false
@@ -127,7 +127,7 @@ theorem dropWhile_isSpace_of_digits {d : Bytes} (hd : isDigits d = true) : d.dro
   | nil => rfl
   | cons x xs =>
     have hx := ((isDigits_iff _).mp hd).2 x (List.mem_cons_self ..)
-    simp [List.dropWhile_cons, digit_not_space hx]
+    simp [digit_not_space hx]
 
 theorem signSplit_of_digits {d : Bytes} (hd : isDigits d = true) : signSplit d = (false, d) := by
   cases d with
@@ -260,7 +260,7 @@ theorem trimServAndPath_noscheme {h rest : Bytes} (hc : 0x3a ∉ h) (hr : rest.h
 theorem trimServAndPath_nonword {c : UInt8} {rest : Bytes} (hw : isWord c = false) (hc : c ≠ 0x3a) :
     trimServAndPath (c :: rest) = (trimPath (c :: rest)).map (·, []) := by
   unfold trimServAndPath
-  simp [List.takeWhile_cons, hw, hc]
+  simp [hw, hc]
 
 theorem trimServAndPath_some {uri rest scheme : Bytes} (e : trimServAndPath uri = some (rest, scheme)) :
     (∃ tail, trimPath tail = some rest ∧ tail <:+ uri) ∧ scheme <+: uri ∧ (∀ c ∈ scheme, isWord c = true) := by
@@ -479,6 +479,56 @@ theorem strtoul_in_range_of_checked {s : Bytes} {v : Nat} (hc : checkRange s = .
           subst hm
           simp at h
           omega
+  · simp [hd] at h
+
+theorem strtoul_of_numericReads {s : Bytes} {neg : Bool} {m : Nat} (h : numericReads s = some (neg, m)) :
+    strtoulReads s = some (if m ≥ cap64 then cap64 - 1 else if neg then (cap64 - m) % cap64 else m) := by
+  simp only [numericReads] at h
+  simp only [strtoulReads]
+  by_cases hd : isDigits (signSplit (s.dropWhile isSpace)).2 = true
+  · simp only [hd, if_true, Option.some.injEq, Prod.mk.injEq] at h ⊢
+    rw [h.1, h.2]
+  · simp [hd] at h
+
+/-- strict form: the written number itself (no modulo) is in 0..65535 -/
+theorem numeric_in_range_of_checked {s : Bytes} {neg : Bool} {m : Nat} (hc : checkRange s = .ok ())
+    (h : numericReads (cstr s) = some (neg, m)) : m ≤ 65535 ∧ (neg = true → m = 0) := by
+  simp only [numericReads] at h
+  by_cases hd : isDigits (signSplit ((cstr s).dropWhile isSpace)).2 = true
+  · simp only [hd, if_true, Option.some.injEq, Prod.mk.injEq] at h
+    have hds : (stollParts s).2 = (signSplit ((cstr s).dropWhile isSpace)).2 := by
+      simp [stollParts, takeWhile_isDigit_of_digits hd]
+    have hneg : (stollParts s).1 = (signSplit ((cstr s).dropWhile isSpace)).1 := by simp [stollParts]
+    have hne : (signSplit ((cstr s).dropWhile isSpace)).2.isEmpty = false := by
+      have := ((isDigits_iff _).mp hd).1
+      cases hh : (signSplit ((cstr s).dropWhile isSpace)).2 with
+      | nil => exact absurd hh this
+      | cons _ _ => rfl
+    unfold checkRange checkRangeCore at hc
+    rw [hds, hneg] at hc
+    simp only [hne, Bool.false_eq_true, if_false] at hc
+    rw [h.1, h.2] at hc
+    unfold rangeOf at hc
+    cases neg
+    · simp only [Bool.false_eq_true, if_false] at hc
+      split at hc
+      · cases hc
+      · split at hc
+        · cases hc
+        · exact ⟨by omega, by simp⟩
+    · simp only [if_true] at hc
+      split at hc
+      · cases hc
+      · split at hc
+        · cases hc
+        · exact ⟨by omega, fun _ => by omega⟩
+  · simp [hd] at h
+
+theorem numeric_of_numericReads {s : Bytes} {r : Bool × Nat} (h : numericReads (cstr s) = some r) : isServiceNumeric s = true := by
+  simp only [numericReads] at h
+  unfold isServiceNumeric
+  by_cases hd : isDigits (signSplit ((cstr s).dropWhile isSpace)).2 = true
+  · exact hd
   · simp [hd] at h
 
 theorem checkRange_digits_small {d : Bytes} (hd : isDigits d = true) (hv : decVal d ≤ 65535) : checkRange d = .ok () := by
